@@ -55,15 +55,21 @@ fn do_call(call: Call, sender: &Sender<Vec<u32>>) -> Result<(), String> {
         Call::SendFullZero => {
             sender.send(1);
             sender.send(2);
-            match emit_batcher::blocking_send(sender, 9, Duration::ZERO) {
-                Ok(()) => Err("blocking_send(ZERO) on a full channel returned Ok".into()),
+            let r = match emit_batcher::blocking_send(sender, 9, Duration::ZERO) {
+                Ok(()) => Err("blocking_send(ZERO) on a full channel returned Ok".to_string()),
                 Err(e) => {
                     if e.into_retryable() == Some(9) {
                         Ok(())
                     } else {
-                        Err("blocking_send(ZERO) on a full channel did not hand the item back".into())
+                        Err("blocking_send(ZERO) on a full channel did not hand the item back".to_string())
                     }
                 }
+            };
+            let snap = sender.verif_snapshot();
+            if r.is_ok() && snap.pending != 2 {
+                Err(format!("blocking_send(ZERO) on a full channel left {} items pending, 2 were queued", snap.pending))
+            } else {
+                r
             }
         }
     }
@@ -170,6 +176,10 @@ impl Engine for CallingContexts {
         let line = format!("{call:?} from {context_name}: {r:?}");
         if let Err(why) = r {
             out.violate("C08", "blocking_call_context", format!("{call:?} from a {context_name}: {why}"));
+            if matches!(call, Call::SendRoom | Call::SendFullZero) {
+                // what a blocking send does with the item and the queue is C09's business, wherever it is called from
+                out.violate("C09", "blocking_send_context", format!("{call:?} from a {context_name}: {why}"));
+            }
         }
         let mut h = Fnv::new();
         h.str(&format!("{context}/{call:?}"));
